@@ -35,6 +35,7 @@ PROBES = ["frozenset_keyed_dict", "frozenset_of_frozensets", "mixed_type_set", "
 N = {"quick": 24, "thorough": 400}
 JOBS = 2  # fresh interpreters do not scale in this sandbox (process start-up serialises)
 CASE_WALL = 300
+SHRINK_BUDGET = 2  # every re-execution costs three interpreter sessions
 
 
 def plan(tier, seed):
